@@ -79,6 +79,16 @@ theorem C06_injective_dump (e : Env κ String) (henc : e.enc = dump)
   rw [src_eq_of_baseKey_eq e hi shape o₁ o₂ h]
   rw [List.map_congr_left (fun n hn => get_eq_of_baseKey_eq e hi shape o₁ o₂ h n (C06_fields_cover.1 n hn))]
 
+/-- The OpenMP device mixes a constant into the serial key with `^` (openmp::device::kernelHash;
+    the constant is in the regenerated table as `Gen.openmpSalt`).  Any operation that is undone by
+    applying it again with the same constant — `hash_t::operator^` is — gives an injective `tweak`:
+    the xor that is left in the key construction cannot make two serial keys collide. -/
+theorem C06_constant_mix_injective {κ : Type} (mix : κ → κ → κ) (hmix : ∀ a c, mix (mix a c) c = a)
+    (c : κ) : Function.Injective (fun a => mix a c) := by
+  intro a b h
+  have := congrArg (fun k => mix k c) h
+  simpa [hmix] using this
+
 /-- The same without idealisation: for EVERY hash function, encoder and rendering, a key shared
     by two configurations with different effective inputs yields a collision of one of them —
     the key construction adds no collisions of its own. -/
